@@ -8,6 +8,8 @@ Case ops (model side: lean/Driver/C01.lean):
 k ∈ {tx, txm (CMutableTransaction, de/cuts only), hdr, blk}.  Valid encodings handed to de/cuts come from
 `Spec` (asked from the driver while generating), never from the code under test.
 """
+import random
+
 from ..framework import Prop, Case, mk, exc_family, ensure_repo_on_path
 from .. import txfmt
 
@@ -325,30 +327,56 @@ class C01(Prop):
         if shard == 0:
             yield from self.fixed_cases()
         yield from self.maxsize_probes(rng, shard, nshards)
-        # systematic part: every length of the pool in every slot, every count in every slot, every witness pattern
-        sysobjs = []
-        idx = 0
-        for wp in WIT_PATTERNS[:4]:
-            for which in ('in', 'out', 'wit'):
-                if which == 'wit' and wp not in ('one', 'all'):
-                    continue
-                for L in g.lens:
-                    idx += 1
-                    if idx % nshards == shard and (big or L <= 0x100 or idx % 3 == 0):
-                        sysobjs.append(self.directed(g, wp, ('len', which, L)))
-                for c in g.counts:
-                    idx += 1
-                    if idx % nshards == shard and (big or c <= 2 or idx % 2 == 0):
-                        sysobjs.append(self.directed(g, wp, ('count', which, c)))
+        # systematic part: every length of the pool in every slot, every count in every slot, every witness pattern.
+        # The list is computed identically in every shard (shard-independent rng) and THEN partitioned by index.
+        sysobjs = [self.directed(g, wp, (kind, which, val))
+                   for j, (wp, kind, which, val) in enumerate(self.systematic_specs(tier)) if j % nshards == shard]
         objs = [('tx', t) for t in sysobjs]
         objs += [('tx', g.tx()) for _ in range(n_tx)]
         objs += [('hdr', g.header()) for _ in range(n_hdr)]
         objs += [('blk', g.block()) for _ in range(n_blk)]
-        objs += [('blk', g.block(c)) for c in ((0xfc, 0xfd, 300) if big else (0xfd,))
-                 if (c + shard) % nshards == 0 or (big and shard < 3)]
+        # blocks with a boundary number of transactions: each count by exactly one shard (no rng involved)
+        objs += [('blk', dict(g.block(c), _sys='blkcount:%d' % c)) for c in self.block_counts(tier)
+                 if c % nshards == shard]
         for i in range(0, len(objs), 40):
             chunk = objs[i:i + 40]
             yield from self.object_cases(rng, chunk, big)
+
+    @staticmethod
+    def block_counts(tier):
+        return (0xfc, 0xfd, 0xfe, 300) if tier == 'thorough' else (0xfd,)
+
+    def systematic_domain(self):
+        """every (witness pattern, 'len'|'count', slot, value) of the boundary sub-domain, in a fixed order"""
+        g = Gen(random.Random(0), self.pool)
+        out = []
+        for wp in WIT_PATTERNS[:4]:
+            for which in ('in', 'out', 'wit'):
+                if which == 'wit' and wp not in ('one', 'all'):
+                    continue
+                out += [(wp, 'len', which, L) for L in g.lens]
+                out += [(wp, 'count', which, c) for c in g.counts]
+        return out
+
+    def systematic_specs(self, tier):
+        """the part of the boundary sub-domain this run covers — the same list in every shard.
+        thorough: all of it.  quick: every small value in every slot; for every large value one slot chosen by the
+        run's seed plus a third of the remaining (slot, value) combinations.  All choices come from a generator
+        seeded without the shard number, so the index partition applied by the caller is a partition."""
+        dom = self.systematic_domain()
+        if tier == 'thorough':
+            return dom
+        crng = random.Random('%s:%s:%s:common' % (getattr(self, 'seed', 0), self.id, tier))
+        small = lambda k, v: v <= (0x100 if k == 'len' else 2)  # noqa: E731
+        keep = [x for x in dom if small(x[1], x[3])]
+        large = [x for x in dom if not small(x[1], x[3])]
+        chosen = set()
+        for key in sorted({(k, v) for (_, k, _, v) in large}):
+            chosen.add(crng.choice([x for x in large if (x[1], x[3]) == key]))
+        for x in large:
+            if crng.random() < 1 / 3:
+                chosen.add(x)
+        return keep + [x for x in large if x in chosen]
 
     def directed(self, g, wp, special):
         """a transaction with one slot forced to a boundary length / count"""
@@ -356,6 +384,7 @@ class C01(Prop):
         for _ in range(50):
             t = g.tx('len' if special[0] == 'len' else 'count', wp)
             kind, which, val = special
+            t['_sys'] = 'sys:%s:%s:%s:%d' % (wp, kind, which, val)
             if kind == 'len':
                 if which == 'in':
                     j = r.randrange(len(t['vin']))
@@ -395,31 +424,32 @@ class C01(Prop):
         yield mk('c01.ser.tx', DEFAULT_TX, 'i', tag='default')
         yield mk('c01.spec.tx', DEFAULT_TX, tag='default')
 
+    def maxsize_domain(self):
+        ns = sorted({MAX_SIZE - 1, MAX_SIZE, MAX_SIZE + 1, 0xffffffff, 0x100000000, 2 ** 64 - 1} |
+                    {v for v in self.pool if MAX_SIZE - 2 <= v <= MAX_SIZE + 2})
+        return [(n, have, place) for n in ns for have in (0, 1, 40)
+                for place in ('scriptSig', 'scriptPubKey', 'witness-item')]
+
     def maxsize_probes(self, rng, shard, nshards):
         """streams whose length field sits at MAX_SIZE (strict prefix of a valid encoding: truncation) and
         just above it (size guard)"""
-        k = 0
         head = (2).to_bytes(4, 'little')
         inp = b'\x22' * 32 + (1).to_bytes(4, 'little')
-        for n in sorted({MAX_SIZE - 1, MAX_SIZE, MAX_SIZE + 1, 0xffffffff, 0x100000000, 2 ** 64 - 1} |
-                        {v for v in self.pool if MAX_SIZE - 2 <= v <= MAX_SIZE + 2}):
-            for have in (0, 1, 40):
-                for place in ('scriptSig', 'scriptPubKey', 'witness-item'):
-                    k += 1
-                    if k % nshards != shard:
-                        continue
-                    data = bytes([rng.randrange(256)]) * have
-                    if place == 'scriptSig':
-                        buf = head + b'\x01' + inp + varint(n) + data
-                    elif place == 'scriptPubKey':
-                        buf = head + b'\x01' + inp + b'\x00' + b'\xff' * 4 + b'\x01' + (5).to_bytes(8, 'little') \
-                            + varint(n) + data
-                    else:
-                        buf = head + b'\x00\x01' + b'\x01' + inp + b'\x00' + b'\xff' * 4 + b'\x00' + b'\x01' \
-                            + varint(n) + data
-                    tag = 'prefix-of-valid' if n <= MAX_SIZE else 'size-guard'
-                    yield mk('c01.de.tx', buf.hex(), 0, tag=tag + ':' + place)
-                    yield mk('c01.de.blk', (b'\x01' * 80 + b'\x01' + buf).hex(), 0, tag=tag + ':blk:' + place)
+        for k, (n, have, place) in enumerate(self.maxsize_domain()):
+            if k % nshards != shard:        # the domain is a fixed list: rng is used only after the partition test
+                continue
+            data = bytes([rng.randrange(256)]) * have
+            if place == 'scriptSig':
+                buf = head + b'\x01' + inp + varint(n) + data
+            elif place == 'scriptPubKey':
+                buf = head + b'\x01' + inp + b'\x00' + b'\xff' * 4 + b'\x01' + (5).to_bytes(8, 'little') \
+                    + varint(n) + data
+            else:
+                buf = head + b'\x00\x01' + b'\x01' + inp + b'\x00' + b'\xff' * 4 + b'\x00' + b'\x01' \
+                    + varint(n) + data
+            tag = ('prefix-of-valid' if n <= MAX_SIZE else 'size-guard') + ':%s:n=%d:have=%d' % (place, n, have)
+            yield mk('c01.de.tx', buf.hex(), 0, tag=tag)
+            yield mk('c01.de.blk', (b'\x01' * 80 + b'\x01' + buf).hex(), 0, tag='blk:' + tag)
 
     def spec_hex(self, chunk):
         lines = []
@@ -478,7 +508,7 @@ class C01(Prop):
     def tx_cases(self, rng, t, enc, big):
         s = txfmt.show_tx(t)
         L = len(enc)
-        yield mk('c01.ser.tx', s, 'i', tag='ser')
+        yield mk('c01.ser.tx', s, 'i', tag='ser' + (':' + t['_sys'] if t.get('_sys') else ''))
         yield mk('c01.ser.tx', s, 'm', tag='ser')
         yield mk('c01.ser.tx', s, rng.choice(('fm', 'fi')), tag='ser')
         if not has_witness(t):
@@ -521,7 +551,7 @@ class C01(Prop):
     def blk_cases(self, rng, b, enc, big):
         s = txfmt.show_block(b)
         L = len(enc)
-        yield mk('c01.ser.blk', s, 'raw', tag='ser')
+        yield mk('c01.ser.blk', s, 'raw', tag='ser' + (':' + b['_sys'] if b.get('_sys') else ''))
         yield mk('c01.spec.blk', s, tag='spec')
         # through the real constructor: the merkle root must be the one the library computes
         if b['vtx']:
